@@ -749,6 +749,28 @@ fn union_level(out: &mut Shards, rng: &mut Rng, lgk: u8) {
         s.chk(id);
         ins.push(id);
     }
+    // a high floor with exceptions just above it: to_sketch(Hll4) replays the gadget in slot order, every
+    // register >= 15 starts as an exception and all cur_min shifts happen in one burst at the end
+    {
+        let id = s.new_sketch(lgk, 8);
+        for slot in 0..k {
+            for val in 1..=3 {
+                s.upd(id, pack(slot, val));
+            }
+        }
+        for (i, v) in [15u32, 16, 17, 18, 30].iter().enumerate() {
+            s.upd(id, pack((2 * i as u32 + 1) % k, *v));
+        }
+        s.chk(id);
+        let u = s.new_union(lgk);
+        s.uupd(u, id);
+        s.uchk(u);
+        let outs = s.utosk3(u);
+        let u2 = s.new_union(lgk);
+        s.uupd(u2, outs[0]);
+        s.uchk(u2);
+        s.utosk3(u2);
+    }
     for &first in &[0usize, 3, 1] {
         let u = s.new_union(lgk + (rng.below(2) as u8));
         s.uupd(u, ins[first]);
